@@ -3,6 +3,6 @@ CONTRACTS = list(_C)
 
 MANIFEST = {
     "category": "proof",
-    "text": "PointsMerger/CellMerger.create_object are verified for any number of inputs with loop invariants over the running vertex offset (merged vertices are the inputs' vertices in order; every merged cell is the input cell shifted by the number of vertices before it, for curves and surfaces, without assuming that cells are ordered or that every vertex is used); BaseMerger.merge_data is verified for any number of inputs: the vertex/cell counters equal the running totals on every path (inputs without data included), every input array is written at its running offset, new output arrays start as no-data with one entry per vertex/cell, inputs are never written. One obligation is restricted to a recorded failing input class (known finding KF-C16-1) and is reported, not counted. About half of the native merge cases run on a file that is re-opened and compared again (the merged values must be what the file holds).",
+    "text": "PointsMerger/CellMerger.create_object are verified for any number of inputs with loop invariants over the running vertex offset (merged vertices are the inputs' vertices in order; every merged cell is the input cell shifted by the number of vertices before it, for curves and surfaces, without assuming that cells are ordered or that every vertex is used); BaseMerger.merge_data is verified for any number of inputs: the vertex/cell counters equal the running totals on every path (inputs without data included), every input array is written at its running offset, new output arrays start as no-data with one entry per vertex/cell, inputs are never written. One obligation is restricted to a recorded failing input class (known finding KF-C16-1) and is reported, not counted. About half of the native merge cases run on a file that is re-opened and compared again (the merged values must be what the file holds). Round-5 addition: one input holding the same data name and type twice (first set with no-data gaps, float and integer): both sets are found in the merged block.",
     "note": "create() is trusted to store what it is given; merge_data's label table is abstracted to at most one earlier label and at most two children per input (stated bound inside an otherwise unbounded proof); DrapeModelMerger is not under contract; vstack/prefix-sum axioms assumed (audited).",
 }
